@@ -66,9 +66,9 @@ PROPS = {
     'C06': dict(obligations=lambda: P('SqProps.C06') + TIE_PREC + TIE_TOK + TIE_LEX + TIE_GRAM,
                 slices=['parse_tok', 'parse_rand', 'lex_chars', 'session_cache'], monitors=['c06'],
                 pending=[]),
-    'C07': dict(obligations=lambda: P('SqProps.C07') + TIE_FN + TIE_CONST,
+    'C07': dict(obligations=lambda: P('SqProps.C07') + P('SqProps.C07Den') + TIE_FN + TIE_CONST,
                 slices=['prog', 'ops', 'alias', 'session_cache'], monitors=[],
-                pending=['a denotational (big-step) reference semantics defined independently of the machine and proved equal to it (the frame lemma evaluation_is_compositional and the big-step theorems of C07 / C09 are the compositional half)']),
+                pending=['completeness of the compositional semantics (whenever the machine halts, some fuel makes evalOp defined): measured, not proved — the `denote` counters of the prog / probe / scope slices count same / nofuel / DIFF; soundness (machine_implements_semantics) and fuel independence are proved; programs started with AST-supplied names (ast_names) are outside evalOp']),
     'C08': dict(obligations=lambda: P('SqProps.C08') + P('SqProps.C08Rat') + T('SqTie.LexRules', 'lexrules_tie'),
                 slices=['num'], monitors=['c08'],
                 pending=['pow / round / quantize / the Decimal builtins against ℚ (+ - * / and the comparisons are: arithmetic_is_correctly_rounded, comparisons_are_rational_order in SqProps/C08Rat.lean)']),
